@@ -412,6 +412,12 @@ def run(F, chk):
     chk.extra["R7.7_functions_analysed"] = analysed
     chk.floor(R7, 3)
 
+    # ------------------------------------------------------------------ R7.8
+    chk.share(F, "c06", ["R6.1"], "R7.8",
+              "the header tables written by Put stay parallel to the block list through every header function that changes their "
+              "length (a table left behind by Clear / AddBlock / DeleteBlock is written against a rebuilt type table)")
+    chk.floor("R7.8", 15)
+
     chk.assumptions += ["sizes are re-measured on every save and never taken from the model, so R7.1 + R7.3 decide the size table "
                         "clause up to uint32 overflow", "header Get/Put layout agreement is decided under C01 (R1.3)"]
     chk.extra["explanation"] = ("byte-accounting pairing in NiOStream, single-writer census, save-protocol typestate and string-"
